@@ -22,6 +22,7 @@ import (
 type ncsRecorder struct {
 	mu    sync.Mutex
 	posts []ncsclient.ReceiptPayload
+	fail  map[int]bool // requests (by arrival order) that are received and then fail
 	srv   *httptest.Server
 	url   string
 }
@@ -34,15 +35,31 @@ func newNCSRecorder() *ncsRecorder {
 	r.srv = httptest.NewServer(http.HandlerFunc(func(w http.ResponseWriter, req *http.Request) {
 		b, _ := io.ReadAll(req.Body)
 		var p ncsclient.ReceiptPayload
+		failing := false
 		if json.Unmarshal(b, &p) == nil {
 			r.mu.Lock()
+			failing = r.fail[len(r.posts)]
 			r.posts = append(r.posts, p)
 			r.mu.Unlock()
+		}
+		if failing {
+			panic(http.ErrAbortHandler) // the service got the receipt, the client sees a broken connection
 		}
 		w.WriteHeader(200)
 	}))
 	r.url = r.srv.URL
 	return r
+}
+
+// failAt plans that the k-th request is received and then fails (engine: the stub; natively: this endpoint).
+func (r *ncsRecorder) failAt(k int) {
+	verifnd.NCSFail(k)
+	r.mu.Lock()
+	if r.fail == nil {
+		r.fail = map[int]bool{}
+	}
+	r.fail[k] = true
+	r.mu.Unlock()
 }
 
 func (r *ncsRecorder) recorded() []ncsclient.ReceiptPayload {
@@ -65,6 +82,12 @@ func VerifC19Pipeline() {
 	ctx, cancel := context.WithCancel(context.Background())
 	rh.HandleReceipts(ctx)
 	key, _ := crypto.GenerateKey()
+	// the credit service answers arbitrarily: each of its first three requests succeeds, or is received and fails
+	for k := 0; k < 3; k++ {
+		if verifnd.Bool() {
+			rec.failAt(k)
+		}
+	}
 
 	n := 1 + verifnd.Choice(2)
 	if verifnd.Tier() == 1 {
